@@ -142,15 +142,40 @@ def handle (j : J) : Except String J := do
   match j.get? "seen0" with
   | some s => snaps := snaps ++ [← snap c.view q s withCopy]
   | none => pure ()
+  -- "levels":true — every message may carry "halt":[raw,agg,port] (what the nexus-level listeners answered: `Halts`); the
+  -- response then has the nexus-level events in "outs"/"raws" and the connection-level ones in "outs_con"/"raws_con", and
+  -- "pev":[on the nexus, on the connection] = the PortStatus / FeaturesReceived events of each message (`deliverL`)
+  let levels := match j.get? "levels" with
+    | some (J.bool b) => b
+    | _ => false
+  let mut outsCon : List J := []
+  let mut rawsCon : List J := []
+  let mut pev : List J := []
   for mj in msgs do
     let m ← msgOf mj
-    let r := deliver c m
-    c := r.1
-    outs := outs ++ [jOut r.2.out]
-    raws := raws ++ [jRaw r.2.raw]
+    if levels then
+      let h : Halts ← match mj.get? "halt" with
+        | some hj => do
+          match ← hj.asArr with
+          | [J.bool a, J.bool b, J.bool d] => pure (⟨a, b, d⟩ : Halts)
+          | _ => throw "halt = [raw,agg,port] (booleans)"
+        | none => pure ⟨false, false, false⟩
+      let r := deliverL c h m
+      c := r.1
+      outs := outs ++ [jOut r.2.outNexus]
+      raws := raws ++ [jRaw r.2.rawNexus]
+      outsCon := outsCon ++ [jOut r.2.outCon]
+      rawsCon := rawsCon ++ [jRaw r.2.rawCon]
+      pev := pev ++ [J.ofNats [if r.2.portNexus then 1 else 0, if r.2.portCon then 1 else 0]]
+    else
+      let r := deliver c m
+      c := r.1
+      outs := outs ++ [jOut r.2.out]
+      raws := raws ++ [jRaw r.2.raw]
     match mj.get? "seen" with
     | some s => snaps := snaps ++ [← snap c.view q s withCopy]
     | none => pure ()
-  pure (J.mk ([("outs", J.arr outs), ("raws", J.arr raws), ("snaps", J.arr snaps)] ++ extra))
+  let lv := if levels then [("outs_con", J.arr outsCon), ("raws_con", J.arr rawsCon), ("pev", J.arr pev)] else []
+  pure (J.mk ([("outs", J.arr outs), ("raws", J.arr raws), ("snaps", J.arr snaps)] ++ lv ++ extra))
 
 def main : IO Unit := serve handle
